@@ -1,0 +1,7 @@
+//go:build verif
+
+// Package verifspec holds machine-checked contracts (structured `//@` comments) for functions of
+// this repository. The files contain comments only and are excluded from every normal build by
+// the `verif` build tag; they are read by the verification machinery in /verif, which generates
+// verification conditions from the real source of the functions named here.
+package verifspec
